@@ -234,9 +234,9 @@ FLAG_PROBES = [
     ("dnl", [(".", True)], ["a\nb", "\n"]),
     ("ml", [("a$", True), ("\\n", False), ("^b", True), ("[ab]", True)], ["a\nb", "ab", "b\nb"]),
     ("ci", [("abc", True), ("[A-Z]", True)], ["ABC", "abc", "aBc"]),
-    ("iw", [("a b", True), ("ab", True), (" ", False)], ["ab", "a b"]),
+    ("iw", [("a b", True), ("ab", True), ("\\x20", False)], ["ab", "a b"]),
     ("oct", [("\\101", True), ("a", True)], ["A", "a"]),
     ("sg", [("a+", True), ("a*b", True)], ["aaa", "aab"]),
-    ("uni", [("\\w", True), (".", True)], ["é", "a"]),
+    ("uni", [("\\w", True), ("[a-z]", True)], ["é", "a", "aé"]),
     ("pe", [("\\b", True), ("a", True)], ["\x08", "a\x08a"]),
 ]
